@@ -101,7 +101,7 @@ func (s *Sim) stateHash() uint64 {
 		oc := "n"
 		if r := controllerOf(p); r != nil {
 			oc = "f"
-			if o, ok := Peek[*asv1.StatefulSet](s.Store, KSet, NS, r.Name); ok && o.UID == r.UID {
+			if o, ok := Peek[*asv1.StatefulSet](s.Store, KSet, p.Namespace, r.Name); ok && o.UID == r.UID {
 				oc = "o"
 			}
 		}
